@@ -279,6 +279,15 @@ func c14KeywordFaults() []c14Case {
 	} {
 		out = append(out, c14Case{Stmt: q, Mutant: true, Fault: "aggregate / clause misuse detectable at plan time"})
 	}
+	// an aggregate whose constant argument has a type it does not support,
+	// over every access path that opens a cursor when it is initialised
+	for _, a := range []string{"quantile(int(value), 'x')", "quantile(int(value), 1.5)", "quantile(int(value), 0.0 - 0.1)", "quantile(int(value), 1)", "group_concat(value, 1)", "group_concat(key, 1.5)"} {
+		for _, w := range []string{"value ^= '1'", "key ^= 'k'", "key > 'a' & key < 'z'", "key >= 'a'", "true"} {
+			for _, q := range []string{"select " + a + " as q where " + w, "select key, " + a + " as q where " + w + " group by key", "select key, count(1) as c, " + a + " as q where " + w + " group by key order by c limit 2"} {
+				out = append(out, c14Case{Stmt: q, Mutant: true, Fault: "aggregate argument of a type it does not support"})
+			}
+		}
+	}
 	return out
 }
 
@@ -335,6 +344,17 @@ func (c14) RunUnit(t core.Tier, u int, r *core.Reporter) {
 	if un.stmt < 0 {
 		for _, c := range c14KeywordFaults() {
 			run(c)
+		}
+		// aggregates at every position of a select field where an operand may
+		// stand: under `!`, on either side of IN and BETWEEN, inside their lists
+		for _, a := range []string{"count(1)", "sum(int(value))", "max(strlen(key))"} {
+			for _, f := range []string{"!({} > 1)", "{} in (1, 2)", "1 in ({}, 2)", "2 in (1, {} * 2)", "{} between 1 and 5", "2 between {} and 5", "2 between 1 and {}", "!({} in (1, {}))", "!(!({} = 1))",
+				"({} > 1) = true", "!({} > 1) & {} < 9", "{} > 1 | !({} between 2 and 3)"} {
+				e := strings.ReplaceAll(f, "{}", a)
+				for _, q := range []string{"select " + e + " as b where true", "select value, " + e + " as b where key != 'zz' group by value", "select " + e + " as b, count(1) as c where true group by key order by c, b"} {
+					run(c14Case{Stmt: q})
+				}
+			}
 		}
 		return
 	}
@@ -442,6 +462,11 @@ func c14Judge(c *c14Case) (f *core.Failure, status string, evals int) {
 			evals++
 			if out.Panic != "" {
 				continue // C06
+			}
+			if e := out.Err(); e != nil && strings.Contains(e.Error(), "Cannot find function") {
+				// an unknown function (or an aggregate where no aggregate can be
+				// computed) is a static fault: it may not wait for the first row
+				return mk("static-fault-at-execution", "a statement that is accepted knows its functions", fmt.Sprintf("%s over %s: %s", mode, store.CanonPairs(ps), strings.ReplaceAll(e.Error(), "\n", " "))), "", evals
 			}
 			if e := out.Err(); e != nil && operandTypeError(e.Error()) {
 				return mk("operand-type-error-at-execution", "no operand-type error on an accepted statement", fmt.Sprintf("%s over %s: %s", mode, store.CanonPairs(ps), strings.ReplaceAll(e.Error(), "\n", " "))), "", evals
